@@ -25,6 +25,7 @@ import (
 	"sort"
 	"strconv"
 	"strings"
+	"syscall"
 	"time"
 
 	"github.com/elk-language/elk/value"
@@ -1086,13 +1087,13 @@ func main() {
 			"VM pass: literal (constant-folded) / typed-parameter (opcode) / explicit method-call forms over 6 (thorough 12) boundary values per type and 8-10 amounts per right-operand type, reported only when the Go-level family is itself correct; " +
 			"non-trivial = result differs from the unbounded mathematical result (wrap-around), or a shift, or a float pair involving a special value; cases are enumerated without repetition",
 		Assume: []string{"Go's sized integer and float32/float64 arithmetic on amd64 is two's-complement / IEEE-754", "math.Mod and math.Pow are taken as the reference for % and ** (float32: computed in float64 and rounded once)",
-			"** with an exponent equal to the maximum of the type is probed only for 8/16-bit types (in a child process with a 20 s limit); 32/64-bit exponents are bounded by 1000 because the implementation is a linear loop"},
+			"** with an exponent equal to the maximum of the type is probed only for 8/16-bit types (in a child process limited to 10 s of CPU time); 32/64-bit exponents are bounded by 1000 because the implementation is a linear loop"},
 		Setup: func(c *engine.Ctx) {
 			elkrun.Init()
 			th = vm.New()
 		},
 		Run:         run,
-		CaseTimeout: 120 * time.Second,
+		CaseTimeout: 10 * time.Minute,
 	})
 }
 
@@ -1366,8 +1367,16 @@ func evalUnary(family, method string, val func(v value.Value) value.Value, v val
 	return guard(func() (value.Value, value.Value) { return th.CallMethodByName(value.ToSymbol(method), v) })
 }
 
+const powCPULimit = 10 // seconds of CPU time granted to the child for a few hundred multiplications
+
 // powProbe runs in a child process: base ** MAX(type) must terminate.
 func powProbe(name string) {
+	// the limit is CPU time, not wall-clock time: a loaded machine cannot make a terminating run look like a hang
+	lim := syscall.Rlimit{Cur: powCPULimit, Max: powCPULimit + 2}
+	if err := syscall.Setrlimit(syscall.RLIMIT_CPU, &lim); err != nil {
+		fmt.Println("setrlimit:", err)
+		os.Exit(3)
+	}
 	t := itypByName(name)
 	v, e := value.ExponentiateVal(t.mk(3), t.mk(t.maxPattern()))
 	fmt.Printf("%s %s\n", insp(v), insp(e))
@@ -1381,10 +1390,11 @@ func goPowMax(c *engine.Ctx) {
 			return
 		}
 		type res struct {
-			t   *ityp
-			out string
-			to  bool
-			err error
+			t    *ityp
+			out  string
+			to   bool // killed by the CPU-time limit
+			wall bool // wall-clock backstop hit: inconclusive
+			err  error
 		}
 		var ts []*ityp
 		for _, t := range ityps {
@@ -1395,10 +1405,19 @@ func goPowMax(c *engine.Ctx) {
 		ch := make(chan res, len(ts))
 		for _, t := range ts {
 			go func(t *ityp) {
-				ctx, cancel := context.WithTimeout(context.Background(), 20*time.Second)
+				// wall-clock backstop only (inconclusive, never a violation); the deciding limit is the child's RLIMIT_CPU
+				ctx, cancel := context.WithTimeout(context.Background(), 8*time.Minute)
 				defer cancel()
-				out, err := exec.CommandContext(ctx, exe, "-powprobe", t.name).CombinedOutput()
-				ch <- res{t, strings.TrimSpace(string(out)), ctx.Err() == context.DeadlineExceeded, err}
+				cmd := exec.CommandContext(ctx, exe, "-powprobe", t.name)
+				cmd.Env = append(os.Environ(), "GOMAXPROCS=1")
+				out, err := cmd.CombinedOutput()
+				x := res{t: t, out: strings.TrimSpace(string(out)), err: err, wall: ctx.Err() == context.DeadlineExceeded}
+				if cmd.ProcessState != nil && !x.wall {
+					if ws, ok := cmd.ProcessState.Sys().(syscall.WaitStatus); ok && ws.Signaled() {
+						x.to = ws.Signal() == syscall.SIGXCPU || ws.Signal() == syscall.SIGKILL
+					}
+				}
+				ch <- x
 			}(t)
 		}
 		got := map[string]res{}
@@ -1416,8 +1435,10 @@ func goPowMax(c *engine.Ctx) {
 			want := t.show(w) + " <undefined>"
 			src := fmt.Sprintf("3%s ** %s", t.suf, t.lit(t.maxPattern()))
 			switch {
+			case x.wall:
+				r.Capped("pow-max probe for " + t.name + " did not finish within the wall-clock backstop (machine overloaded?)")
 			case x.to:
-				fs.fail("does not terminate", fmt.Sprintf("%s (value.ExponentiateVal in a child process) was still running after 20 s; expected %s (a few hundred multiplications)", src, t.show(w)), t.name)
+				fs.fail("does not terminate", fmt.Sprintf("%s (value.ExponentiateVal in a child process) was killed after %d s of CPU time; expected %s (a few hundred multiplications)", src, powCPULimit, t.show(w)), t.name)
 			case x.err != nil:
 				fs.fail("child failed", fmt.Sprintf("%s: %v %s", src, x.err, x.out), t.name)
 			case x.out != want:
